@@ -252,6 +252,32 @@ def check(tier, seed, replay=None):
             if rnd.random() < 0.3:
                 txt = "(format_time (parse_time %s %s) %s)" % (json.dumps(text), json.dumps(fmt), json.dumps(fmt))
                 items.append((X.strip(EP.parse(txt, table)), ("null",), [], [], txt))
+        # (ix) parse_selection: the text of a generated expression (in every spelling the generator has) handed over as a string literal, as the value
+        #      of a field of the input, and built by concat - it must evaluate like the expression written out (the reader of ExprSyntax.tla gives
+        #      the AST, Eval its value), on the input and under the bindings of the place where the call stands
+        for i in range(600 if quick else 20000):
+            inp = X.typed_input(rnd)
+            e = X.gen_typed(rnd, table, rnd.choice(["num", "str", "bool", "list:num", "list:str", "obj", "any"]), rnd.choice([0, 1, 2, 3]), X.Env())
+            e = X.decorate(e, rnd, table)
+            inner = X.text(e) + rnd.choice(["", "", " ", " =name", "=n"])
+            if not EL.is_ascii(inner):
+                continue
+            k = rnd.random()
+            if k < 0.6:
+                txt = "(parse_selection %s)" % json.dumps(inner)
+            elif k < 0.8:
+                txt = "(map [1, 2] (parse_selection %s))" % json.dumps(inner)      # the parsed text sees the element, with the record as its parent
+            else:
+                txt = "(| .o (parse_selection %s))" % json.dumps(inner)
+            try:
+                ast = X.strip(EP.parse(txt, table))
+            except Exception:
+                continue
+            items.append((ast, inp, [], [], txt))
+        for inner in (".", ".n", "(stringify .)", "(null? .)", "(default .a 0)", "(size .)", ".l#0", "(+ .n 1)", "^", "(.len)", "1", "\"x\"", "(", "(nosuch 1)", ""):
+            for inp_txt in ('{"n": 5, "a": 7, "l": [3, 4]}', "null", "[1, 2]"):
+                txt = "(parse_selection %s)" % json.dumps(inner)
+                items.append((X.strip(EP.parse(txt, table)), PL.parse_ast(inp_txt), [], [], txt))
     cases = []
     for i, (ast, inp, vs, ms, txt) in enumerate(items):
         c = EL.select_case(txt, inp, vs, ms)
@@ -276,7 +302,8 @@ def check(tier, seed, replay=None):
         uni = ['["a", 1]', '["b", "c"]', '[]', '"abc"', '[1, 2, 3]', '{"a": 1}', '5', 'null', '["x"]', '[["p", "q"], 1]', '"1 x"', '"[1, 2"', '"12"']
         fns = ["(join .)", "(join . \"-\")", "(sum .)", "(sort .)", "(sort_unique .)", "(first .)", "(size .)", "(concat .)".replace("(concat .)", "(concat . \"!\")"), "(stringify .)", "(parse .)",
                "(keys .)", "(reverese .)", "(take . 1)", "(pop .)", "(flat_map . .)", "(all .)", "(group_by . (stringify .))", "(sort_by . .)", "(head . 2)", "(split . \"b\")",
-               "(map . (join .))", "(fold . \"\" (concat .so_far (stringify .value)))", "(set \"v\" . (size :v))", "(| . (sort .) (first .))"]
+               "(map . (join .))", "(fold . \"\" (concat .so_far (stringify .value)))", "(set \"v\" . (size :v))", "(| . (sort .) (first .))",
+               "(parse_selection \"(size .)\")", "(parse_selection \"(stringify .)\")", "(parse_selection \".\")", "(set \"x\" . (: \"x\"))"]
         for f in fns:
             # every function over the whole universe, there and back: each kind of argument is met after each other kind
             allv = [PL.parse_ast(u) for u in uni]
@@ -292,7 +319,7 @@ def check(tier, seed, replay=None):
         recs += mrecs
         chk.notes["multi_record_evaluations"] = len(mrecs)
     nfirst = len(recs) - len(mdescs)
-    flags, res = run_trace_spec("Trace_Expr", recs, "c04", nproc=4 if quick else 14)
+    flags, res = run_trace_spec("Trace_Expr", recs, "c04", nproc=4 if quick else 14, env={"FUNCS": EL.funcs_file(table)})
     skipped = {c for k, c, w in flags if k == "SKIP"}
     chk.traces = len(recs) - len(skipped)
     chk.evaluations = len(recs)
